@@ -863,7 +863,34 @@ def dispatch_phase(ck, tier, broken, n_quick=400, n_thorough=5000, skip_multilin
         ck.violation('model-witness', 'SrcFacts.be_log_to_write_reinit_per_sink = false: a sink without override behind a sink with an override pattern is handed the override line (theorem C12d_hoisted_refuted)',
                      case=with_hoist(D.corpus_cases(orc, 1)[0], 1), expected='the plain sink is handed the line of the logger\'s pattern',
                      observed='model variant hoist=1: the plain sink is handed the override line')
-    return {'dispatch_cases': len(cases), 'override_sink_before_plain_sink_both_written': nt, 'disagreements': len(dis), 'monitor_failures': len(mon), 'model_variant_hoist': hoist}
+    share = formatter_sharing_phase(ck)
+    return {'dispatch_cases': len(cases), 'override_sink_before_plain_sink_both_written': nt, 'disagreements': len(dis), 'monitor_failures': len(mon), 'model_variant_hoist': hoist,
+            'formatter_sharing_cases': share}
+
+
+PFO_MEMBER = ['format_pattern', 'timestamp_pattern', 'timestamp_timezone', 'add_metadata_to_multi_line_logs']
+
+
+def formatter_sharing_phase(ck):
+    """"else the logger's pattern" when several loggers exist (harness/pfshare.cpp): for every member of
+    PatternFormatterOptions two loggers differing in that member only (plus 0-3 other loggers) log through the real
+    backend in both orders; each line must carry its own logger's options (the backend shares formatter objects among
+    loggers with equal options). The expectation is computed by the harness from the options alone (literal timestamp
+    text), independent of the Coq model. Returns the number of cases run."""
+    exe, err = ck.build_harness('pfshare', ['pfshare.cpp'], san=False)
+    if not exe:
+        ck.violation('no-failing-input-found', 'harness pfshare.cpp does not compile against /repo: ' + err[-400:]); return 0
+    cases = ['pfshare %d %d %d' % (m, o, n) for m in range(4) for o in (0, 1) for n in (0, 1, 3)]
+    il = ck.run_impl(exe, cases, per_case_timeout=20)
+    for c, i in zip(cases, il):
+        if i.strip() != '1':
+            a = c.split()
+            ck.violation('impl-failing-input',
+                         'two loggers whose pattern options differ only in %s (the %s one dispatched first, %s other loggers): a line was formatted with the other logger\'s options - '
+                         'the backend handed this logger a PatternFormatter built for different options' % (PFO_MEMBER[int(a[1])], 'second' if a[2] == '1' else 'first', a[3]),
+                         case=c, expected='1 (every line carries its own logger\'s options)', observed=i[:200])
+            break
+    return len(cases)
 
 
 # the model variant of the run (Format/PatModel.v, record pvar): set from the T-src facts by set_variant()
